@@ -342,6 +342,7 @@ WellFormed(e) ==
     [] e.ev = "ret" -> scfg.n = N /\ SolOK(e.sol) /\ SnapOK(e.snap)
     [] e.ev = "cb" -> scfg.n = N /\ (IF "sol" \in DOMAIN e THEN SolOK(e.sol) ELSE TRUE) /\ (IF "snap" \in DOMAIN e THEN SnapOK(e.snap) ELSE TRUE)
     [] e.ev = "call" -> scfg.n = N
+    [] e.ev = "malformed" -> FALSE       \* the recorder met a non-finite number where the solver must hold a finite one
     [] OTHER -> TRUE
 
 Consume ==
